@@ -142,3 +142,6 @@ func ZZSetSigning(p *GovParams, window, minSigned int64) {
 func ZZSetRatios(p *GovParams, minSelf, maxUpdatable, maxIndividual int64) {
 	p.minSelfStakeRatio, p.maxUpdatableStakeRatio, p.maxIndividualStakeRatio = minSelf, maxUpdatable, maxIndividual
 }
+
+// ZZSetMinTrxGas sets the minimum gas of a transaction (a governance parameter).
+func ZZSetMinTrxGas(p *GovParams, g uint64) { p.minTrxGas = g }
